@@ -5,10 +5,10 @@ for i in $(seq -w 1 20); do
   p=C$i; wt=/tmp/seed${r}_$p
   [ -f $wt/_out/patch.diff ] || { echo "$p: no patch yet"; continue; }
   out=$(tools/try_seed.sh $p $wt 2>&1)
-  suite=$(echo "$out" | grep "suite with" | grep -c "110 passed")
-  dw=$(echo "$out" | grep "demo with change" | grep -c "exit 1")
-  dwo=$(echo "$out" | grep "demo without" | grep -c "exit 0")
-  code=$(echo "$out" | grep "check exit" | awk '{print $3}')
-  sig=$(echo "$out" | grep -E "^  \[" | head -2 | cut -c1-150 | tr '\n' ' ')
+  suite=$(echo "$out" | grep -a "suite with" | grep -c "110 passed")
+  dw=$(echo "$out" | grep -a "demo with change" | grep -c "exit 1")
+  dwo=$(echo "$out" | grep -a "demo without" | grep -c "exit 0")
+  code=$(echo "$out" | grep -a "check exit" | awk '{print $3}')
+  sig=$(echo "$out" | grep -a -E "^  \[" | head -2 | cut -c1-150 | tr '\n' ' ')
   echo "$p: suite_ok=$suite demo_fails_with=$dw demo_passes_without=$dwo check_exit=$code $sig"
 done
